@@ -119,6 +119,7 @@ type conRun struct {
 	prop  string
 	viol  *Violation
 	tasks []ConTask
+	copies int
 }
 
 func (c *conRun) fail(oracle, kind, format string, a ...interface{}) {
@@ -295,6 +296,27 @@ func (c *conRun) execOne(store *gkvlite.Store, op ConOp, ev *Ev) {
 				ev.Err = err.Error()
 			}
 		})
+	case "copyto":
+		// CopyTo is a read-only operation on its source (README); used on snapshots
+		c.call(ev, func() {
+			c.copies++
+			dd := NewSimDisk(100+c.copies, c.w.Env)
+			dst, err := store.CopyTo(dd, op.N)
+			if err != nil {
+				ev.Err = err.Error()
+				return
+			}
+			st, err := ReadStoreState(dst, c.w.cmpOfStore(c.h))
+			if err != nil {
+				ev.Err = "reading the copy: " + err.Error()
+				return
+			}
+			for _, name := range st.Names() {
+				ev.Subs = append(ev.Subs, &Ev{Task: ev.Task, Idx: ev.Idx, Op: ConOp{Kind: "all", C: name}, Items: st.Colls[name].Items})
+			}
+			dst.Close()
+			c.w.probe("concurrent-copyto-from-snapshot")
+		})
 	case "snapshot":
 		c.call(ev, func() {
 			inv := c.s.Tick()
@@ -307,6 +329,17 @@ func (c *conRun) execOne(store *gkvlite.Store, op ConOp, ev *Ev) {
 				sub.Inv = c.s.Tick()
 				c.execOne(snap, sub.Op, sub)
 				sub.Ret = c.s.Tick()
+				if sub.Op.Kind == "copyto" {
+					// one synthetic whole-collection read per collection of the copy
+					if sub.Err != "" || sub.Panic != "" {
+						ev.Subs = append(ev.Subs, &Ev{Task: ev.Task, Idx: ev.Idx, Op: ConOp{Kind: "all", C: c.h.M.Names()[0]}, Err: "CopyTo from the snapshot: " + sub.Err + sub.Panic, Inv: sub.Inv, Ret: sub.Ret})
+					}
+					for _, s2 := range sub.Subs {
+						s2.Inv, s2.Ret = sub.Inv, sub.Ret
+						ev.Subs = append(ev.Subs, s2)
+					}
+					continue
+				}
 				ev.Subs = append(ev.Subs, sub)
 			}
 			c.s.Yield("op-snapclose")
@@ -552,6 +585,8 @@ func evMatches(ev *Ev, v *MColl) bool {
 			want = v.Items[len(v.Items)-1]
 		}
 		return ev.Found && itemsEq(ev.Items, []MItem{want}, op.WV)
+	case "all":
+		return itemsEq(ev.Items, v.Items, true)
 	case "totals":
 		n, b := v.Totals()
 		return ev.N == n && ev.B == b
@@ -589,7 +624,7 @@ func evMatches(ev *Ev, v *MColl) bool {
 
 func isRead(kind string) bool {
 	switch kind {
-	case "get", "exist", "getitem", "min", "max", "totals", "len", "visit", "iter":
+	case "get", "exist", "getitem", "min", "max", "totals", "len", "visit", "iter", "all":
 		return true
 	}
 	return false
@@ -855,8 +890,22 @@ func (c *conRun) checkCrashSamples(rng *Rng, n int) {
 		return
 	}
 	cmpOf := c.w.cmpOfStore(c.h)
+	// boundaries between image-changing calls (all of them for short logs,
+	// else a sample of 16), plus n torn cuts
+	var cuts []CrashSpec
+	if total <= 16 {
+		for i := 0; i <= total; i++ {
+			cuts = append(cuts, CrashSpec{Writes: i})
+		}
+	} else {
+		for i := 0; i < 16; i++ {
+			cuts = append(cuts, CrashSpec{Writes: rng.Intn(total + 1)})
+		}
+	}
 	for i := 0; i < n; i++ {
-		spec := CrashSpec{Writes: rng.Intn(total + 1), Torn: rng.Intn(40)}
+		cuts = append(cuts, CrashSpec{Writes: rng.Intn(total + 1), Torn: 1 + rng.Intn(40)})
+	}
+	for _, spec := range cuts {
 		img, _, _ := imageAt(d, spec.Writes, spec.Torn)
 		c.w.Stats.CrashImgs++
 		dec := Decode(img, int64(len(img)), cmpOf)
